@@ -24,10 +24,13 @@ from sim.harness import draw_knobs, Discard   # noqa: F401
 
 ID = "C20"
 LEVEL = "exploration"
-RUNS = {"quick": 3000, "thorough": 100000}
-WALL_CAP = {"quick": 90, "thorough": 900}
+RUNS = {"quick": 2000, "thorough": 100000}
+WALL_CAP = {"quick": 80, "thorough": 900}
 RULE = ("one case = one credits configuration (price, 1-3 coin switches with values/audit classes, 1-3 pricing "
-        "tiers, max_credits, full/fractional expiry, persist time, free play at boot, balls per game, max players) "
+        "tiers - quarter based, 'odd' or dime/nickel based with prices like .30/.60/.70/.15/.35 whose float quotients "
+        "are inexact -, max_credits, full/fractional expiry, persist time, free play at boot, balls per game, max "
+        "players, optionally a handler that holds the player_adding queue and releases it 0/50/1000 ms later, "
+        "alone or together with a start press before/after the release in the same callback) "
         "x one generated history of 6-45 operations (coins, coin bursts, service credits, credit events, start "
         "presses, double presses, drains, game ends, waits of ms..hours, toggle/enable free/credit play, slam tilt, "
         "credits/earnings reset, reboot after an off time) executed on the real credits/game/attract modes under a "
@@ -382,6 +385,7 @@ class World:
         self.ever_free_boot = False
         self.persist_expiry_lost = False
         self.disk = {}
+        self.abort_reason = None
         self.last_upg = 0
         self.approvals = []      # free-play flag at the time each pending player add was approved
 
@@ -430,6 +434,8 @@ class World:
 
     def V(self, rule, sig, msg):
         """Report; on a known finding resynchronise the ledger with the SUT."""
+        if self.abort_reason:
+            return
         self.ctx.log("violation", rule, sig, t=self.sim.now)
         self.ctx.violation(rule, sig, msg)
         self.resync()
@@ -505,23 +511,23 @@ class World:
             self.V("unit_conversion", "zero units after %s" % ("boot" if where == "boot" else "enabling credit play"),
                    "credit play is active (%s) but credit_unit=%r credit_units_per_game=%r: price %s is not charged and "
                    "a coin divides by zero" % (where, unit, upg, L.P))
-            raise Discard("cannot continue without units")
+            return self._abort(where, "cannot continue without units")
         if D(unit) * upg != L.P:
             self.V("unit_conversion", "price not a whole number of units",
                    "price %s but credit_unit=%s x units_per_game=%s = %s (coins %s)"
                    % (L.P, unit, upg, D(unit) * upg, [c["value"] for c in self.cfg["coins"]]))
-            raise Discard("units wrong")
+            return self._abort(where, "units wrong")
         for c in self.cfg["coins"]:
             if (D(c["value"]) / D(unit)).denominator != 1:
                 self.V("unit_conversion", "coin not a whole number of units",
                        "coin %s is not a multiple of credit_unit %s (price %s, coins %s)"
                        % (c["value"], unit, L.P, [x["value"] for x in self.cfg["coins"]]))
-                raise Discard("units wrong")
+                return self._abort(where, "units wrong")
         for p, _ in L.tiers:
             if (p / D(unit)).denominator != 1:
                 self.V("unit_conversion", "tier price not a whole number of units",
                        "tier price %s is not a multiple of credit_unit %s" % (p, unit))
-                raise Discard("units wrong")
+                return self._abort(where, "units wrong")
         if len(L.tiers) > 1:
             # the table the SUT adds bonuses from must be the pricing table of the config, in units
             u = D(unit)
@@ -539,7 +545,15 @@ class World:
                        "pricing tiers %s with credit_unit %s: bonus table %s (wrap %s), the config says %s (wrap %s)"
                        % (self.cfg["tiers"], unit, {k: v for k, v in sorted(got.items()) if v},
                           cr.pricing_tiers_wrap_around, {k: v for k, v in sorted(exp.items()) if v}, wrap))
-                raise Discard("pricing table wrong")
+                return self._abort(where, "pricing table wrong")
+
+    def _abort(self, where, reason):
+        """The case cannot be evaluated any further (only reached after a *known* finding was reported).
+        Inside an event handler nothing may be raised: the driver discards the run after the loop returns."""
+        if where == "boot":
+            raise Discard(reason)
+        self.abort_reason = reason
+        self.done = True
 
     # -- observers --------------------------------------------------------------------------------
     def on_posted(self, t, name, kw):
@@ -902,6 +916,8 @@ class World:
                    % (s, val, frac, b))
 
     def check_sync(self, where):
+        if self.abort_reason:
+            return
         upg = self.upg()
         if upg and self.sut_balance() != self.L.B:
             raise AssertionError("ledger lost track (%s): SUT %s, ledger %s" % (where, self.sut_balance(), self.L.B))
@@ -1144,6 +1160,8 @@ class World:
             self.sim.at(t, self.run_op, o, t)
 
     def run_op(self, op, t_nom):
+        if self.abort_reason:
+            return
         if op["op"] == "reboot":
             self.ctx.log("op", "reboot", op["off"], t=self.sim.now)
             self.check_sync("reboot")
@@ -1221,6 +1239,10 @@ class World:
                 self.schedule_next()
                 continue
             self.sim.run(max(self.next_t - self.sim.now, 0.0) + 0.02)
+            if self.abort_reason:
+                raise Discard(self.abort_reason)
+        if self.abort_reason:
+            raise Discard(self.abort_reason)
         # settle: let a pending game start / player add / expiry due now finish
         self.sim.run_quiet(2.0)
         g = self.m.game
